@@ -16,6 +16,24 @@ open RV.Arith RV.BatchCtx RV.Executor RV.ExecutorX
 
 variable {W : Type}
 
+/-- A plane's **own** predicates, with which the executor's guarantees are stated for that plane:
+    `ready`    – the batch the persisted status points at has its pods, as the plane counts them (world as observed),
+    `released` – the workload is no longer under this BatchRelease's control,
+    `exposure` – how many pods of the new revision the world lets run, `allowed` – what the plan entry of the current batch allows,
+    `expoOK`   – the region in which the plane's exposure figures are meaningful (sizes, holds: the side conditions of the
+                 plane's own exposure theorems),
+    `wf`       – well-formedness of a world the API server guarantees (unique names); `true` for most planes. -/
+structure Preds (W : Type) where
+  ready    : BR → W → Bool
+  released : BR → W → Bool
+  exposure : W → Int
+  allowed  : BR → W → Int
+  expoOK   : BR → W → Bool := fun _ _ => true
+  wf       : W → Bool := fun _ => true
+  /-- the post-condition of a successful `Initialize` in this plane's own terms (world before, world after): the workload
+      is claimed the way *this* plane claims it -/
+  claimed  : BR → W → W → Bool := fun _ _ _ => true
+
 /-- did this reconcile stop after the sync step? (a crashing sync step counts as stopped: nothing is executed) -/
 def stoppedX (P : Plane W) (br : BR) (w : W) : Bool :=
   match syncStatusX P (withFinalizer br) (initializedStatus br.status) w with
@@ -85,13 +103,36 @@ def writeWithinBatch (expo expo' allowed : Int) (br br' : BR) : Bool :=
     decide (expo ≤ expo') && decide (expo' ≤ max expo allowed)
   else true
 
+/-- C01 / C11: a release becomes `Progressing` only in a reconcile whose `Initialize` succeeded, and then the workload is
+    claimed the way the serving plane claims it (`claimed` = the plane's post-condition on the worlds before / after). -/
+def initClaims (claimed : Bool) (br br' : BR) : Bool :=
+  if br.status.phase ≠ .progressing ∧ br'.status.phase = .progressing then claimed else true
+
+/-- C11.iv: when the plane reports the scaling event for a `Progressing` release whose plan is neither completed, finalizing,
+    changed nor unhealthy, the reconcile restarts the batch (`Upgrading`, ready time cleared), records the new size and
+    stops before acting.  `scaled` = the plane's `SyncWorkloadInformation` says `WorkloadReplicasChanged` with these replicas. -/
+def scalingRestarts (scaled : Option Int) (br br' : BR) : Bool :=
+  match scaled with
+  | some r =>
+    if br.status.phase = .progressing ∧ ¬ isPlanFinalizing br ∧ ¬ isPlanChanged br ∧ ¬ isPlanUnhealthy br then
+      br'.status.batchState = .upgrading && !br'.status.hasReadyTime && decide (br'.status.observedReplicas = r) &&
+      br'.status.phase = .progressing && decide (br'.status.currentBatch = br.status.currentBatch)
+    else true
+  | none => true
+
+/-- the scaling event as the plane reports it for this release (`none`: another event, or the sync step crashes) -/
+def scaledX (P : Plane W) (br : BR) (w : W) : Option Int :=
+  match P.syncInfo (withFinalizer br) (initializedStatus br.status) w with
+  | .val (.replicasChanged, some i) => some i.replicas
+  | _ => none
+
 /-- The executor may crash only on a plan without batches / a negative current batch (not reachable from a Rollout
     the validating webhook accepts), or where the plane's own model says the plane crashes (`planePanics`). -/
 def panicAllowed (planePanics : Bool) (br : BR) : Bool :=
   br.batches.isEmpty || decide (br.status.currentBatch < 0) || planePanics
 
 /-- all oracles of one step, keyed by property -/
-def stepOracles [DecidableEq W] (stopped ready released : Bool) (expo expo' allowed : Int)
+def stepOracles [DecidableEq W] (stopped ready released claimed expoOK : Bool) (scaled : Option Int) (expo expo' allowed : Int)
     (br : BR) (w : W) (br' : Option BR) (w' : W) : List (String × Bool) :=
   let common := [("C18.x_finalizer_guards_teardown", goneOnlyWhenCompleted br br'),
                  ("C06.x_no_act_before_persist", noActBeforePersist stopped w w'),
@@ -105,7 +146,10 @@ def stepOracles [DecidableEq W] (stopped ready released : Bool) (expo expo' allo
      ("C01.x_batch_advance_guarded", batchAdvanceGuarded ready br b),
      ("C11.x_within_partition", withinPartition br b),
      ("C01.x_within_partition", withinPartition br b),
-     ("C01.x_write_within_batch", writeWithinBatch expo expo' allowed br b),
+     ("C01.x_write_within_batch", !expoOK || writeWithinBatch expo expo' allowed br b),
+     ("C01.x_init_claims", initClaims claimed br b),
+     ("C11.x_init_claims", initClaims claimed br b),
+     ("C11.x_scaling_restarts", scalingRestarts scaled br b),
      ("C11.x_completed_means_released", completedMeansReleased released br b),
      ("C18.x_completed_means_released", completedMeansReleased released br b),
      ("C11.x_falls_back", fallsBack stopped ready br b),
